@@ -47,6 +47,7 @@ func init() {
 		Explanation: "Strings: delegation rules with Go's own constructs as oracle. REP-STRING: stringT.Len is len(s); Get indexes the string and wraps the byte with the uint8 constructor; Slice is s[i:j]; the key yielded by Range derives from the index variable of a Go range over s (byte offsets) and the value from its rune variable; opAdd/opLt/opLte/Equals apply + < <= == to stringT operands; convert uses string(rune(.)), []byte(.) and string([]byte); no method writes through s. PAN-ERRDROP(literals): token.go's decoders do not discard the error of strconv.Unquote*/Parse*, and UnquoteChar is given the single quote it is inside. LIT-CONSTKEY: a literal kept in the constant table is keyed by the token's own spelling, the same key for Set and for the CONST operand. Not decided: escapes beyond what strconv decides; invalid UTF-8 (delegated to Go's range/conversions).",
 		Quick: []ruleDef{
 			{"REP-STRING", 11, ruleRepString},
+			{"GLOBAL-STATE", 5, ruleGlobalState},
 			{"PAN-ERRDROP-LIT", 4, ruleErrDropLit},
 			{"LIT-DELEGATE", 4, ruleLitDelegate},
 			{"LIT-CONSTKEY", 2, ruleLitConstKey},
